@@ -1,3 +1,4 @@
+import Cfdm.Generated.CoordRefTables
 /-
 C01 — the single-construct netCDF codec of cfdm on the abstract field.
 
@@ -22,12 +23,22 @@ options (format, compression, shuffle, fletcher32, endianness, chunking, data ty
 the model.
 
 The model covers fields whose metadata are domain axes, dimension / auxiliary coordinates (with
-bounds, climatology), cell measures (external or not), field ancillaries and cell methods, for
-the structural options `scalar` and `coordinates`.  Coordinate references, domain ancillaries,
-domains, compression and geometries are outside it (`modelled`), and so is the sharing of one
-netCDF variable by two equal constructs (`_already_in_file`, excluded by `noShared`).
+bounds, climatology), cell measures (external or not), field ancillaries, cell methods, domain
+ancillaries and coordinate references, for the structural options `scalar` and `coordinates`.
+Domains, compression and geometries are outside it, and so is the sharing of one netCDF variable
+by two equal constructs (`_already_in_file`, excluded by `noShared`) other than a domain ancillary
+that is equal to a coordinate construct or to an earlier domain ancillary (`danPlan`).
 
-Import-free (core Lean only) so that the driver can be compiled.
+Stage B (coordinate references): domain ancillaries are metadata constructs of type `dan`;
+coordinate references (`MRef`) carry coordinate conversion parameters, datum parameters,
+coordinates and `term → domain ancillary` pairs.  In the dataset the `formula_terms` and
+`grid_mapping` attributes are kept in two tables of the file keyed by variable name
+(`NcFile.formulaTerms`, `NcFile.gridMapping`), so that `NcVar` is what it was for stage A; a
+grid mapping variable is a variable without dimensions and data whose attributes are the
+parameters.  Not modelled: non-name parameters of a formula-terms reference (written as scalar
+variables), two equal grid mappings sharing one variable, domains, compression, geometries.
+
+Core Lean only (plus the regenerated tables) so that the driver can be compiled.
 -/
 namespace Cfdm.Codec
 
@@ -37,6 +48,8 @@ abbrev Props := List (String × String)
 
 inductive CType where
   | dim | aux | msr | fan
+  /-- domain ancillary -/
+  | dan
   deriving DecidableEq, Repr
 
 /-- An array known by identity. -/
@@ -83,6 +96,20 @@ structure MCellMethod where
 /-- A metadata construct inside a field: key, construct, the axes it spans. -/
 abbrev Entry := Key × MConstruct × List Key
 
+/-- A coordinate reference construct. -/
+structure MRef where
+  ncvar : Option String
+  /-- keys of coordinate constructs (a set: sorted by the abstraction) -/
+  coords : List Key
+  /-- coordinate conversion parameters (`grid_mapping_name`, `standard_name`,
+  `computed_standard_name` with literal values) -/
+  params : Props
+  /-- datum parameters -/
+  datum : Props
+  /-- coordinate conversion domain ancillaries: term, key (or `None`) -/
+  terms : List (String × Option Key)
+  deriving DecidableEq, Repr
+
 structure MField where
   props : Props
   ncvar : Option String
@@ -91,6 +118,8 @@ structure MField where
   axes : List (Key × MAxis)
   cons : List Entry
   cms : List MCellMethod
+  /-- coordinate references, in construct order -/
+  refs : List (Key × MRef) := []
   deriving DecidableEq, Repr
 
 /-! ## The abstract dataset -/
@@ -124,6 +153,11 @@ structure NcFile where
   globals : Props
   /-- the `external_variables` global attribute -/
   externals : List String
+  /-- the parsed `formula_terms` attributes (`term: variable` pairs) by variable name -/
+  formulaTerms : List (String × List (String × String)) := []
+  /-- the parsed `grid_mapping` attributes by variable name: `(variable, [])` for the short form
+  `"variable"`, else `variable: coordinate …` groups -/
+  gridMapping : List (String × List (String × List String)) := []
   deriving DecidableEq, Repr
 
 inductive Err where
@@ -272,6 +306,8 @@ inductive Slot where
   | axis (a : Key)
   /-- the data variable -/
   | field
+  /-- the grid mapping variable of a coordinate reference -/
+  | gm (k : Key)
   deriving DecidableEq, Repr
 
 structure NSt where
@@ -394,6 +430,154 @@ def allocMeasure (st : NSt) (e : Entry) : Except Err NSt :=
 def allocAnc (st : NSt) (e : Entry) : Except Err NSt :=
   allocName st (.con e.key) (baseName e.con.ncvar e.con.props "ancillary_data")
 
+
+/-! ## Stage B, writer: coordinate references and domain ancillaries -/
+
+def MRef.sn (r : MRef) : Option String := r.params.lookup "standard_name"
+def MRef.csn (r : MRef) : Option String := r.params.lookup "computed_standard_name"
+def MRef.gmName (r : MRef) : Option String := r.params.lookup "grid_mapping_name"
+/-- `get_coordinate_conversion_parameters(ref).get("standard_name", False)` -/
+def MRef.isFT (r : MRef) : Bool := r.sn.isSome
+/-- `….get("grid_mapping_name", False)` -/
+def MRef.isGM (r : MRef) : Bool := r.gmName.isSome
+
+def Entry.isCoordinate (e : Entry) : Bool := e.con.ctype == .dim || e.con.ctype == .aux
+def MField.coord? (f : MField) (k : Key) : Option Entry := f.cons.find? (fun e => e.key == k && e.isCoordinate)
+def MField.dan? (f : MField) (k : Key) : Option Entry := f.cons.find? (fun e => e.key == k && e.con.ctype == .dan)
+
+def mapE {α β} (g : α → Except Err β) : List α → Except Err (List β)
+  | [] => .ok []
+  | a :: as =>
+    match g a with
+    | .error e => .error e
+    | .ok b =>
+      match mapE g as with
+      | .error e => .error e
+      | .ok bs => .ok (b :: bs)
+
+/-- The owning coordinate as the loop before the axes finds it: the reference has a standard name and
+a computed standard name, and exactly one of its coordinates is 1-d with that standard name. -/
+def csnOwner (f : MField) (r : MRef) : Except Err (Option Key) :=
+  match r.sn, r.csn with
+  | some sn, some _ =>
+    if r.coords.all (fun k => (f.coord? k).isSome) then
+      match r.coords.filter (fun k =>
+          match f.coord? k with
+          | some e => e.axes.length == 1 && stdName e.con.props == some sn
+          | none => false) with
+      | [k] => .ok (some k)
+      | _ => .ok none
+    else .error .keyError  -- `field_coordinates[key]`
+  | _, _ => .ok none
+
+/-- `set_properties(coord, {"computed_standard_name": csn})` when the coordinate has none;
+`ValueError("Standard name could not be computed.")` when it has another one. -/
+def setCsn (f : MField) (k : Key) (csn : String) : Except Err MField :=
+  match f.coord? k with
+  | none => .error .keyError
+  | some e =>
+    match e.con.props.lookup "computed_standard_name" with
+    | none =>
+      .ok { f with cons := f.cons.map (fun x =>
+              if x.key == k then (x.1, { x.2.1 with props := x.2.1.props ++ [("computed_standard_name", csn)] }, x.2.2) else x) }
+    | some x => if x == csn then .ok f else .error .valueError
+
+def csnStep (g : MField) (or : Option Key × MRef) : Except Err MField :=
+  match or.1, or.2.csn with
+  | some k, some c => setCsn g k c
+  | _, _ => .ok g
+
+/-- The writer works on a copy of the field whose parametric coordinates carry
+`computed_standard_name`. -/
+def applyCsn (f : MField) : Except Err MField :=
+  let fts := (f.refs.filter (fun kr => kr.2.isFT)).map (·.2)
+  match mapE (csnOwner f) fts with
+  | .error e => .error e
+  | .ok owners => foldlE csnStep f (owners.zip fts)
+
+/-- The owning coordinate as the `formula_terms` section finds it: exactly one coordinate of the
+reference has the reference's standard name. -/
+def ftOwner (f : MField) (r : MRef) : Option Entry :=
+  match r.sn with
+  | none => none
+  | some sn =>
+    match r.coords.filterMap (fun k => (f.coord? k).filter (fun e => stdName e.con.props == some sn)) with
+    | [e] => some e
+    | _ => none
+
+/-- Dictionaries are compared as sets of items. -/
+def insertP (a : String × String) : Props → Props
+  | [] => [a]
+  | b :: bs => if a.1 < b.1 || (a.1 == b.1 && a.2 ≤ b.2) then a :: b :: bs else b :: insertP a bs
+def sortP : Props → Props
+  | [] => []
+  | a :: as => insertP a (sortP as)
+
+/-- `construct0.equals(construct1, ignore_type=True)`: properties, data, bounds. -/
+def sameContent (x e : Entry) : Bool :=
+  sortP x.con.props == sortP e.con.props && x.con.data == e.con.data &&
+  (match x.con.bounds, e.con.bounds with
+   | none, none => true
+   | some b, some b' => sortP b.props == sortP b'.props && b.data == b'.data
+   | _, _ => false)
+
+/-- The variables a domain ancillary can turn out to be (`_already_in_file(anc, ncdimensions,
+ignore_type=True)`): coordinate variables and N-d auxiliary coordinate variables. -/
+def sharable (f : MField) (ax : AxSt) : List Entry :=
+  ax.roles.filterMap (fun ar => match ar.2 with | .coordVar e => some e | _ => none)
+  ++ (sortEntries (f.ofType .aux)).filter (fun e => !auxIsScalar ax.dataLocal e)
+
+def danStep (f : MField) (ax : AxSt) (acc : List (Entry × Option Entry)) (e : Entry) : List (Entry × Option Entry) :=
+  let cands := sharable f ax ++ (acc.filter (fun p => p.2.isNone)).map (·.1)
+  acc ++ [(e, cands.find? (fun x => x.axes == e.axes && sameContent x e))]
+
+/-- The domain ancillaries in the order of writing, each with the variable already in the file that
+it is equal to, if any. -/
+def danPlan (f : MField) (ax : AxSt) : List (Entry × Option Entry) :=
+  (sortEntries (f.ofType .dan)).foldl (danStep f ax) []
+
+/-- The default variable name of a domain ancillary: the first term that refers to it. -/
+def danDefault (f : MField) (k : Key) : String :=
+  match (f.refs.flatMap (fun kr => kr.2.terms)).find? (fun tk => tk.2 == some k) with
+  | some tk => tk.1
+  | none => "domain_ancillary"
+
+def allocDan (f : MField) (st : NSt) (pe : Entry × Option Entry) : Except Err NSt :=
+  match pe.2 with
+  | some x =>
+    .ok { st with names := st.names ++ [(.con pe.1.key, nameOf st.names (.con x.key))]
+            ++ (match x.con.bounds with
+                | some _ => [(.bvar pe.1.key, nameOf st.names (.bvar x.key)), (.bdim pe.1.key, nameOf st.names (.bdim x.key))]
+                | none => []) }
+  | none => allocCoord st pe.1 (danDefault f pe.1.key)
+
+def datumEq (a b : Props) : Bool := sortP a == sortP b
+
+/-- `_create_vertical_datum(ref, owning_coord_key)` -/
+def vdatumStep (f : MField) (gms : List (Key × MRef)) (kr : Key × MRef) : List (Key × MRef) :=
+  match ftOwner f kr.2 with
+  | none => gms
+  | some o =>
+    if kr.2.datum.isEmpty then gms else
+    match gms.filter (fun g => datumEq g.2.datum kr.2.datum) with
+    | [g] =>
+      gms.map (fun x =>
+        if x.1 == g.1 then (x.1, { x.2 with coords := if x.2.coords.contains o.key then x.2.coords else x.2.coords ++ [o.key] })
+        else x)
+    | _ =>
+      gms ++ [(kr.1, { ncvar := none, coords := [o.key], params := [("grid_mapping_name", "latitude_longitude")],
+                       datum := kr.2.datum, terms := [] })]
+
+/-- `g["grid_mapping_refs"]` when the grid mapping variables are written. -/
+def gmRefs (f : MField) : List (Key × MRef) :=
+  (f.refs.filter (fun kr => kr.2.isFT)).foldl (vdatumStep f) (f.refs.filter (fun kr => kr.2.isGM))
+
+/-- `_write_grid_mapping`, naming part. -/
+def allocGM (st : NSt) (kr : Key × MRef) : Except Err NSt :=
+  match allocName st (.gm kr.1) (kr.2.ncvar.getD (kr.2.gmName.getD "grid_mapping")) with
+  | .error e => .error e
+  | .ok st1 => if kr.2.datum.any (fun d => (kr.2.params.lookup d.1).isSome) then .error .valueError else .ok st1
+
 /-- All names, in the order in which the writer asks for them. -/
 def naming (f : MField) (ax : AxSt) : Except Err (List (Slot × String)) :=
   match foldlE (allocAxis f) ⟨[], [], []⟩ ax.roles with
@@ -402,10 +586,16 @@ def naming (f : MField) (ax : AxSt) : Except Err (List (Slot × String)) :=
   match foldlE (allocAux ax.dataLocal) s1 (sortEntries (f.ofType .aux)) with
   | .error e => .error e
   | .ok s2 =>
-  match foldlE allocMeasure s2 (sortEntries (f.ofType .msr)) with
+  match foldlE (allocDan f) s2 (danPlan f ax) with
+  | .error e => .error e
+  | .ok s2d =>
+  match foldlE allocMeasure s2d (sortEntries (f.ofType .msr)) with
   | .error e => .error e
   | .ok s3 =>
-  match foldlE allocAnc s3 (f.ofType .fan) with
+  match foldlE allocGM s3 (gmRefs f) with
+  | .error e => .error e
+  | .ok s3g =>
+  match foldlE allocAnc s3g (f.ofType .fan) with
   | .error e => .error e
   | .ok s4 =>
   match allocName s4 .field (baseName f.ncvar f.props "data") with
@@ -539,6 +729,7 @@ def cmAxisName (f : MField) (names : List (Slot × String)) (ax : AxSt) (a : Str
 /-- The axes whose netCDF dimension `_netcdf_dimensions` looks up (a missing one is a `KeyError`). -/
 def neededAxes (f : MField) (ax : AxSt) : List Key :=
   ((sortEntries (f.ofType .aux)).filter (fun e => !auxIsScalar ax.dataLocal e)).flatMap (·.axes)
+  ++ (sortEntries (f.ofType .dan)).flatMap (·.axes)
   ++ ((sortEntries (f.ofType .msr)).filter (fun e => !e.con.external)).flatMap (·.axes)
   ++ (f.ofType .fan).flatMap (·.axes)
   ++ ax.dataField
@@ -562,26 +753,93 @@ def dataVar (o : Opts) (f : MField) (ax : AxSt) (names : List (Slot × String)) 
     ancillary := (f.ofType .fan).map (fun e => nameOf names (.con e.key))
     cellMethods := f.cms.map (fun cm => { cm with axes := cm.axes.map (cmAxisName f names ax) }) }
 
+
+/-- The variables of the domain ancillaries that are not already in the file: bounds, then the
+construct (whose variable gets no `bounds` attribute). -/
+def danEntryVars (names : List (Slot × String)) (ax : AxSt) (pe : Entry × Option Entry) : List NcVar :=
+  match pe.2 with
+  | some _ => []
+  | none =>
+    let cdims := dimsOf names ax.roles pe.1.axes
+    match pe.1.con.bounds with
+    | none => [plainVar names pe.1 cdims]
+    | some b => [boundsVar names pe.1 cdims b, plainVar names pe.1 cdims]
+
+/-- `_write_grid_mapping`: a variable without dimensions or data whose attributes are the datum and
+the coordinate conversion parameters. -/
+def gmVar (names : List (Slot × String)) (kr : Key × MRef) : NcVar :=
+  { name := nameOf names (.gm kr.1), dims := [], isStr := false, data := none, attrs := kr.2.datum ++ kr.2.params }
+
+/-- The `formula_terms` attributes of the owning coordinate's variable and of its bounds variable:
+`term: variable` for every domain ancillary; in the bounds variable's attribute the bounds variable
+of a term that spans the vertical axis. -/
+def ftAttrs (f : MField) (names : List (Slot × String)) (kr : Key × MRef) : List (String × List (String × String)) :=
+  match ftOwner f kr.2 with
+  | none => []
+  | some o =>
+    let z := o.axes.headD ""
+    let terms := kr.2.terms.filterMap (fun tk => tk.2.bind (fun k => (f.dan? k).map (fun d => (tk.1, d))))
+    let ft := terms.map (fun td => (td.1, nameOf names (.con td.2.key)))
+    -- `g["bounds"].get(ncvar)`: the variable of a construct with bounds has a bounds variable
+    let bft := terms.map (fun td =>
+      if td.2.con.bounds.isSome && td.2.axes.contains z then (td.1, nameOf names (.bvar td.2.key))
+      else (td.1, nameOf names (.con td.2.key)))
+    if ft.isEmpty then []
+    else (nameOf names (.con o.key), ft)
+         :: (if o.con.bounds.isSome then [(nameOf names (.bvar o.key), bft)] else [])
+
+def ftTable (f : MField) (names : List (Slot × String)) : List (String × List (String × String)) :=
+  (f.refs.filter (fun kr => kr.2.isFT)).flatMap (ftAttrs f names)
+
+/-- The `grid_mapping` attribute of the data variable. -/
+def gmAttr (f : MField) (names : List (Slot × String)) : List (String × List String) :=
+  match gmRefs f with
+  | [] => []
+  | [g] => [(nameOf names (.gm g.1), [])]
+  | gs => gs.map (fun g => (nameOf names (.gm g.1), sortKeys (g.2.coords.map (fun k => nameOf names (.con k)))))
+
+def gmTable (f : MField) (names : List (Slot × String)) : List (String × List (String × List String)) :=
+  match gmAttr f names with
+  | [] => []
+  | a => [(nameOf names .field, a)]
+
+/-- `g["key_to_ncvar"][key]` for the coordinates of several grid mappings. -/
+def gmKeysOK (f : MField) (names : List (Slot × String)) : Bool :=
+  (gmRefs f).length ≤ 1 || (gmRefs f).all (fun g => g.2.coords.all (fun k => (names.lookup (.con k)).isSome))
+
 def emit (o : Opts) (f : MField) (ax : AxSt) (names : List (Slot × String)) : Except Err NcFile :=
-  if (neededAxes f ax).all (fun a => (axisDim names ax.roles a).isSome) then
+  if (neededAxes f ax).all (fun a => (axisDim names ax.roles a).isSome) && gmKeysOK f names then
     .ok { dims := ax.roles.flatMap (axisNcDim f names) ++ boundsDims f names
-          vars := (written f ax).flatMap (entryVars f names ax) ++ [dataVar o f ax names]
+          vars := (written f ax).flatMap (entryVars f names ax)
+                  ++ (danPlan f ax).flatMap (danEntryVars names ax) ++ (gmRefs f).map (gmVar names)
+                  ++ [dataVar o f ax names]
           globals := f.props.filter isGlobal
           externals := ((sortEntries (f.ofType .msr)).filter (fun e => e.con.external)).map
-                         (fun e => nameOf names (.con e.key)) }
+                         (fun e => nameOf names (.con e.key))
+          formulaTerms := ftTable f names
+          gridMapping := gmTable f names }
   else .error .keyError
 
-/-- `cfdm.write(f, file, scalar=…, coordinates=…)` for one field. -/
-def writeField (o : Opts) (f : MField) : Except Err NcFile :=
+/-- The writer once `computed_standard_name` has been copied onto the parametric coordinates. -/
+def writeField' (o : Opts) (f : MField) : Except Err NcFile :=
   match naming f (axesPhase o f) with
   | .error e => .error e
   | .ok names => emit o f (axesPhase o f) names
 
+/-- `cfdm.write(f, file, scalar=…, coordinates=…)` for one field. -/
+def writeField (o : Opts) (f : MField) : Except Err NcFile :=
+  match applyCsn f with
+  | .error e => .error e
+  | .ok f' => writeField' o f'
+
 /-- The writer without fixes/C01-inserted-axis-auxiliary-coordinate.patch. -/
 def writeFieldOld (o : Opts) (f : MField) : Except Err NcFile :=
-  match naming f (axesPhaseOld o f) with
+  match applyCsn f with
   | .error e => .error e
-  | .ok names => emit o f (axesPhaseOld o f) names
+  | .ok f' =>
+    match naming f' (axesPhaseOld o f') with
+    | .error e => .error e
+    | .ok names => emit o f' (axesPhaseOld o f') names
 
 /-! ## Reader
 
@@ -715,8 +973,9 @@ def usedMeasures (nc : NcFile) (v : NcVar) : List (String × String) :=
 def usedAncillary (nc : NcFile) (v : NcVar) : List String :=
   if ancillaryOK nc v.dims v.ancillary then v.ancillary else []
 
-/-- `_create_field_or_domain(field_ncvar)`: the field. -/
-def readVar (nc : NcFile) (v : NcVar) : MField :=
+/-- `_create_field_or_domain(field_ncvar)`: the field without its coordinate references and domain
+ancillaries. -/
+def readVarA (nc : NcFile) (v : NcVar) : MField :=
   { props := nc.globals.filter (fun g => (v.attrs.lookup g.1).isNone) ++ v.attrs
     ncvar := some v.name
     data := ⟨v.data.getD 0, v.isStr⟩
@@ -726,10 +985,192 @@ def readVar (nc : NcFile) (v : NcVar) : MField :=
             ++ (usedMeasures nc v).filterMap (measureEntry nc) ++ (usedAncillary nc v).filterMap (ancEntry nc)
     cms := v.cellMethods }
 
-/-- The variables that building a field from `v` references (`_reference`). -/
-def varRefs (nc : NcFile) (v : NcVar) : List String :=
+/-- The variables that building a field from `v` references (`_reference`), stage A. -/
+def varRefsA (nc : NcFile) (v : NcVar) : List String :=
   v.dims.flatMap (dimRefs nc) ++ v.coordinates.flatMap (tokenRefs nc v.dims)
   ++ (usedMeasures nc v).flatMap (measureRefs nc v.name) ++ (usedAncillary nc v).flatMap (ancRefs nc)
+
+/-! ## Stage B, reader: `formula_terms` and `grid_mapping` -/
+
+/-- The construct key the modelled reader gives the domain ancillary made from a variable (a
+coordinate made from the same variable has the variable's name as its key). -/
+def danKey (n : String) : Key := "@" ++ n
+def ftKey (n : String) : Key := "@ft@" ++ n
+def gmKey (n : String) : Key := "@gm@" ++ n
+
+def NcFile.dimsOf (nc : NcFile) (n : String) : List String := ((nc.var? n).map (·.dims)).getD []
+
+/-- `z_ncdim in dimensions`; a scalar coordinate variable has no vertical dimension
+(fixes/C01-scalar-parametric-coordinate-read.patch; the code as it is raises `IndexError`). -/
+def inDims (z : Option String) (d : List String) : Bool :=
+  match z with
+  | some zd => d.contains zd
+  | none => false
+
+/-- `_check_formula_terms`, the coordinate variable's attribute: a term whose variable is missing
+is `None`. -/
+def coordTerms (nc : NcFile) (ft : List (String × String)) : List (String × Option String) :=
+  ft.map (fun tn => (tn.1, if (nc.var? tn.2).isSome then some tn.2 else none))
+
+/-- One `term: variable` of the bounds variable's `formula_terms`. -/
+def boundsTermVal (nc : NcFile) (z : Option String) (ct : List (String × Option String)) (tn : String × String) : Option String :=
+  if (nc.var? tn.2).isNone then none else
+  match ct.lookup tn.1 with
+  | none => none
+  | some none => none
+  | some (some parent) =>
+    let d := nc.dimsOf parent
+    let dd := nc.dimsOf tn.2
+    if !inDims z d then (if tn.2 != parent then none else some tn.2)
+    else if dd.length != d.length + 1 then none
+    else if d != dd.take d.length then none
+    else some tn.2
+
+/-- `g["formula_terms"][coord_ncvar]["bounds"]`. -/
+def boundsTerms (nc : NcFile) (cv : NcVar) (z : Option String) (ct : List (String × Option String)) : List (String × Option String) :=
+  match cv.bounds with
+  | none => []
+  | some bn =>
+    if (nc.var? bn).isNone then [] else
+    match nc.formulaTerms.lookup bn with
+    | some bft => bft.map (fun tn => (tn.1, boundsTermVal nc z ct tn))
+    | none =>
+      -- a bounds variable without `formula_terms` (not what cfdm writes): terms that do not span the
+      -- vertical dimension stand for themselves
+      ct.map (fun tn => (tn.1, tn.2.bind (fun n => if !inDims z (nc.dimsOf n) then some n else none)))
+
+/-- The domain ancillary construct made from the variable `nv` (called `n`), its bounds being the
+variable `b` named by the bounds variable's `formula_terms`, else what `nv`'s own `bounds` attribute
+names (`_create_bounded_construct(domain_ancillary=True, bounds_ncvar=…)`). -/
+def danCon (nc : NcFile) (n : String) (nv : NcVar) (b : Option String) : MConstruct :=
+  { ctype := .dan, props := nv.attrs, ncvar := some n, data := nv.data.map (fun id => ⟨id, nv.isStr⟩),
+    bounds := (match b with
+               | some bn => (nc.var? bn).bind (readBoundsVar nc nv)
+               | none => readBounds nc nv) }
+
+/-- The bounds variable of a term: what the bounds `formula_terms` names, unless it is the term's
+own variable. -/
+def danBounds (bt : List (String × Option String)) (tn : String × String) : Option String :=
+  let b0 := (bt.lookup tn.1).bind id
+  if b0 == some tn.2 then none else b0
+
+/-- The domain ancillary of a term (`_create_domain_ancillary`); `none` when the variable "spans
+incorrect dimensions". -/
+def readDan (nc : NcFile) (fdims : List String) (bt : List (String × Option String)) (tn : String × String) : Option Entry :=
+  match nc.var? tn.2 with
+  | none => none
+  | some nv =>
+    if subset nv.dims fdims then some (danKey tn.2, danCon nc tn.2 nv (danBounds bt tn), nv.dims)
+    else none
+
+structure FTRead where
+  coord : Key
+  dans : List Entry
+  ref : Key × MRef
+  deriving Repr
+
+/-- The coordinate reference and domain ancillaries that a coordinate with a `formula_terms`
+attribute gives (`_create_formula_terms_ref`). -/
+def readFT (nc : NcFile) (v : NcVar) (c : Entry) : Option FTRead :=
+  match c.con.ncvar with
+  | none => none
+  | some cn =>
+    match nc.formulaTerms.lookup cn, nc.var? cn with
+    | some ft, some cv =>
+      let z := cv.dims.head?
+      let ct := coordTerms nc ft
+      let bt := boundsTerms nc cv z ct
+      let withVar := ct.filterMap (fun tn => tn.2.map (fun n => (tn.1, n)))
+      let ds := withVar.map (readDan nc v.dims bt)
+      if ds.all Option.isSome then
+        some { coord := c.key
+               dans := ds.filterMap id
+               ref := (ftKey cn,
+                       { ncvar := none, coords := [c.key]
+                         params := ["standard_name", "computed_standard_name"].filterMap (fun p => (c.con.props.lookup p).map (fun x => (p, x)))
+                         datum := []
+                         terms := ct.map (fun tn => (tn.1, tn.2.map danKey)) }) }
+      else none
+    | _, _ => none
+
+structure GMSt where
+  /-- `g["vertical_crs"]`: coordinate key, coordinate reference -/
+  vcrs : List (Key × Key × MRef)
+  out : List (Key × MRef)
+  /-- grid mapping variables that have become constructs (`ncvar_to_key`) -/
+  seen : List String
+  deriving Repr
+
+def isDatumParam (p : String × String) : Bool := Cfdm.Generated.datumParameters.contains p.1
+
+/-- `for vcoord, vcr in g["vertical_crs"].items(): if vcoord in coordinates: …` -/
+def gmVertical (datum : Props) : List (Key × Key × MRef) → List Key → Bool → List (Key × Key × MRef) × List Key × Bool
+  | [], cs, cn => ([], cs, cn)
+  | v :: vs, cs, cn =>
+    if cs.contains v.1 then
+      let cs' := cs.erase v.1
+      let r := gmVertical datum vs cs' (!cs'.isEmpty)
+      ((v.1, v.2.1, { v.2.2 with datum := datum }) :: r.1, r.2.1, r.2.2)
+    else
+      let r := gmVertical datum vs cs cn
+      (v :: r.1, r.2.1, r.2.2)
+
+/-- One `variable: coordinate …` group of the `grid_mapping` attribute. -/
+def gmStep (nc : NcFile) (coords : List Entry) (danVars : List String) (st : GMSt) (g : String × List String) : GMSt :=
+  match nc.var? g.1 with
+  | none => st
+  | some gv =>
+    if g.2.any (fun c => (nc.var? c).isNone) then st else
+    let toKey (n : String) : Option Key :=
+      if (coords.map Entry.key).contains n then some n
+      else if danVars.contains n then some (danKey n)
+      else if st.seen.contains n then some (gmKey n)
+      else none
+    let cs0 := g.2.filterMap toKey
+    let datum := gv.attrs.filter isDatumParam
+    let conv := gv.attrs.filter (fun p => !isDatumParam p)
+    let mk (cs : List Key) : Key × MRef := (gmKey g.1, { ncvar := some g.1, coords := cs, params := conv, datum := datum, terms := [] })
+    if cs0.isEmpty then
+      let table := ((gv.attrs.lookup "grid_mapping_name").bind (fun n => Cfdm.Generated.coordRefCoordinates.lookup n)).getD []
+      let inferred := table.flatMap (fun n => (coords.filter (fun e => stdName e.con.props == some n)).map Entry.key)
+      { vcrs := st.vcrs.map (fun v => (v.1, v.2.1, { v.2.2 with datum := datum }))
+        out := st.out ++ [mk inferred], seen := st.seen ++ [g.1] }
+    else
+      let r := gmVertical datum st.vcrs cs0 true
+      if r.2.2 then { vcrs := r.1, out := st.out ++ [mk r.2.1], seen := st.seen ++ [g.1] }
+      else { st with vcrs := r.1 }
+
+structure BRead where
+  dans : List Entry
+  refs : List (Key × MRef)
+  /-- the variables referenced (`_reference`) -/
+  referenced : List String
+  deriving Repr
+
+def danRefs (e : Entry) : List String :=
+  e.con.ncvar.toList ++ (match e.con.bounds with | some b => b.ncvar.toList | none => [])
+
+/-- Coordinate references and domain ancillaries of the field made from `v`, given its
+coordinate constructs. -/
+def readB (nc : NcFile) (v : NcVar) (cons : List Entry) : BRead :=
+  let coords := cons.filter Entry.isCoordinate
+  let fts := coords.filterMap (readFT nc v)
+  let dans := fts.flatMap (·.dans)
+  let gm := (nc.gridMapping.lookup v.name).getD []
+  let st := gm.foldl (gmStep nc coords (dans.filterMap (·.con.ncvar))) ⟨fts.map (fun x => (x.coord, x.ref)), [], []⟩
+  { dans := dans
+    refs := st.vcrs.map (·.2) ++ st.out
+    referenced := dans.flatMap danRefs ++ st.seen }
+
+/-- `_create_field_or_domain(field_ncvar)`: the field. -/
+def readVar (nc : NcFile) (v : NcVar) : MField :=
+  let a := readVarA nc v
+  let b := readB nc v a.cons
+  { a with cons := a.cons ++ b.dans, refs := b.refs }
+
+/-- The variables that building a field from `v` references (`_reference`). -/
+def varRefs (nc : NcFile) (v : NcVar) : List String :=
+  varRefsA nc v ++ (readB nc v (readVarA nc v).cons).referenced
 
 /-- The loop that reinstates referenced variables all of whose referencers are referenced
 (the list is edited while a copy of it is traversed). -/
